@@ -3,6 +3,7 @@ CONSTANTS
   HostSeq <- TwoHosts
   Entries = {"hcPlain", "hcTLS"}
   MaxReqs = 2
+  Vias <- DirectOnly
   MaxScript = 1
 INVARIANT HttpsOnTLS
 INVARIANT HttpOnPlain
